@@ -54,7 +54,14 @@ type Handler struct {
 }
 
 func (c *Config) NewHandler() *Handler {
-	if len(c.Hosts) < 1 {
+	// an empty RDPGW_SERVER__HOSTS yields a list with a single empty entry
+	hosts := 0
+	for _, h := range c.Hosts {
+		if strings.TrimSpace(h) != "" {
+			hosts++
+		}
+	}
+	if hosts < 1 {
 		log.Fatal("Not enough hosts to connect to specified")
 	}
 
